@@ -301,6 +301,8 @@ int SimulateZ80::get_reg_id(const char * reg_string)
     {
       break;
     }
+    // no register or flag name is this long
+    if (ndx >= (int)sizeof(rstr) - 1) { return -1; }
     rstr[ndx++] = *reg_string;
     ++reg_string;
   }
